@@ -81,7 +81,10 @@ def handleVCfg (acc : Acc) (h : VHist) (kv : KV) (line : String) : Acc × VHist 
   let msg : InstantiateMsg :=
     { decimalPlaces := dp, pricefeed := 4, marginEngine := some 1, insuranceFund := some 2,
       quoteReserve := kv.nat "qr", baseReserve := kv.nat "br", fundingPeriod := kv.nat "period",
-      toll := kv.nat "toll", spread := kv.nat "spread", fluct := kv.nat "fluct" }
+      -- the PARAMETERS of the instantiate message (`ptoll` …); the stored configuration is read from `toll` … by `parseV`
+      toll := (match kv.get? "ptoll" with | some t => t.toNat?.getD 0 | none => kv.nat "toll"),
+      spread := (match kv.get? "pspread" with | some t => t.toNat?.getD 0 | none => kv.nat "spread"),
+      fluct := (match kv.get? "pfluct" with | some t => t.toNat?.getD 0 | none => kv.nat "fluct") }
   let m := Vamm.instantiate env 3 msg
   let acc := { acc with checked := acc.checked + 1 }
   let implOk := kv.bool "ok"
@@ -93,7 +96,9 @@ def handleVCfg (acc : Acc) (h : VHist) (kv : KV) (line : String) : Acc × VHist 
     let impl := parseV kv D (kv.nat "period")
     let acc := match m with
       | .ok mv => if sameV mv impl then acc else
-          reportMany acc "DISAGREE" ["C20", "C01", "C18"] s!"vamm-instantiate-state:{diffV mv impl}" line
+          reportMany acc "DISAGREE" (["C20", "C01", "C18"] ++ (if mv.cfg.toll != impl.cfg.toll || mv.cfg.spread != impl.cfg.spread then ["C12"] else [])
+              ++ (if mv.cfg.fluct != impl.cfg.fluct then ["C15"] else []) ++ (if mv.cfg.fundingPeriod != impl.cfg.fundingPeriod then ["C11"] else []))
+            s!"vamm-instantiate-state:{diffV mv impl}" line
       | .error _ => acc
     -- Spec (C20): accepted configuration is within bounds; (C01 quantifier) reserves ≥ one unit
     let acc := if impl.cfg.toll ≤ D && impl.cfg.spread ≤ D && impl.cfg.fluct ≤ D && dp ≥ 6
@@ -179,6 +184,7 @@ def handleVOp (acc : Acc) (h : VHist) (kv : KV) (line : String) : Acc × VHist :
             s!"swapin-state:{diffV mv post}" line
         else acc
       | .error e =>
+        let acc := acc.cover s!"vamm.{op}:{errTagOf e}"
         if ok then reportMany acc "DISAGREE"
           (match e with
            | .guard 11 | .guard 12 | .guard 13 | .guard 14 => ["C17"]
@@ -228,6 +234,7 @@ def handleVOp (acc : Acc) (h : VHist) (kv : KV) (line : String) : Acc × VHist :
             s!"swapout-state:{diffV mv post}" line
         else acc
       | .error e =>
+        let acc := acc.cover s!"vamm.{op}:{errTagOf e}"
         if ok then reportMany acc "DISAGREE"
           (match e with
            | .guard 11 | .guard 12 | .guard 13 | .guard 14 => ["C17"]
@@ -246,20 +253,20 @@ def handleVOp (acc : Acc) (h : VHist) (kv : KV) (line : String) : Acc × VHist :
       let m := Vamm.queryTwapPrice pre env iv
       match m with
       | .ok mr => if ok && mr == r then acc else acc.report "DISAGREE" "C18" "twap-value" line
-      | .error _ => if ok then acc.report "DISAGREE" "C18" "twap-accept" line else acc
+      | .error e => let acc := acc.cover s!"vamm.{op}:{errTagOf e}"; if ok then acc.report "DISAGREE" "C18" "twap-accept" line else acc
     | "q_iotwap" =>
       let dir := dirOf (kv.nat "dir")
       let m := if kv.bool "qin" then Vamm.queryInputTwap pre env dir (kv.nat "amt")
                else Vamm.queryOutputTwap pre env dir (kv.nat "amt")
       match m with
       | .ok mr => if ok && mr == kv.nat "r" then acc else reportMany acc "DISAGREE" ["C18", "C06"] "io-twap-value" line
-      | .error _ => if ok then reportMany acc "DISAGREE" ["C18", "C06"] "io-twap-accept" line else acc
+      | .error e => let acc := acc.cover s!"vamm.{op}:{errTagOf e}"; if ok then reportMany acc "DISAGREE" ["C18", "C06"] "io-twap-accept" line else acc
     | "q_overfluct" =>
       let dir := dirOf (kv.nat "dir")
       let m := Vamm.queryIsOverFluctuationLimit pre env dir (kv.nat "amt")
       match m with
       | .ok mr => if ok && mr == kv.bool "r" then acc else acc.report "DISAGREE" "C15" "is-over-fluctuation-value" line
-      | .error _ => if ok then acc.report "DISAGREE" "C15" "is-over-fluctuation-accept" line else acc
+      | .error e => let acc := acc.cover s!"vamm.{op}:{errTagOf e}"; if ok then acc.report "DISAGREE" "C15" "is-over-fluctuation-accept" line else acc
     | "q_overspread" =>
       let oracle : Except Err Nat := if kv.bool "ofail" then .error .panic else .ok (kv.nat "oracle")
       let m := Vamm.queryIsOverSpreadLimit pre oracle
@@ -273,7 +280,7 @@ def handleVOp (acc : Acc) (h : VHist) (kv : KV) (line : String) : Acc × VHist :
         else acc
       match m with
       | .ok mr => if ok && mr == kv.bool "r" then acc else reportMany acc "DISAGREE" ["C06", "C07"] "over-spread-value" line
-      | .error _ => if ok then reportMany acc "DISAGREE" ["C06", "C07"] "over-spread-accept" line else acc
+      | .error e => let acc := acc.cover s!"vamm.{op}:{errTagOf e}"; if ok then reportMany acc "DISAGREE" ["C06", "C07"] "over-spread-accept" line else acc
     | "q_calcfee" =>
       let amt := kv.nat "amt"
       let acc := if ok && !(kv.nat "tf" == amt * pre.cfg.toll / D && kv.nat "sf" == amt * pre.cfg.spread / D)
@@ -281,7 +288,7 @@ def handleVOp (acc : Acc) (h : VHist) (kv : KV) (line : String) : Acc × VHist :
       let m := Vamm.queryCalcFee pre amt
       match m with
       | .ok (t, s) => if ok && t == kv.nat "tf" && s == kv.nat "sf" then acc else acc.report "DISAGREE" "C12" "calc-fee-value" line
-      | .error _ => if ok then acc.report "DISAGREE" "C12" "calc-fee-accept" line else acc
+      | .error e => let acc := acc.cover s!"vamm.{op}:{errTagOf e}"; if ok then acc.report "DISAGREE" "C12" "calc-fee-accept" line else acc
     | "settle" =>
       let oracle : Except Err Nat := if kv.bool "ofail" then .error .panic else .ok (kv.nat "otwap")
       let pf := kv.int "pf"
@@ -305,7 +312,7 @@ def handleVOp (acc : Acc) (h : VHist) (kv : KV) (line : String) : Acc × VHist :
         else if mpf.toInt != pf then acc.report "DISAGREE" "C11" "settle-premium" line
         else if !sameV mv post then acc.report "DISAGREE" "C11" s!"settle-state:{diffV mv post}" line
         else acc
-      | .error _ => if ok then reportMany acc "DISAGREE" ["C11", "C09", "C14"] "settle-accept(model err, impl ok)" line else acc
+      | .error e => let acc := acc.cover s!"vamm.{op}:{errTagOf e}"; if ok then reportMany acc "DISAGREE" ["C11", "C09", "C14"] "settle-accept(model err, impl ok)" line else acc
     | "setopen" =>
       let o := kv.bool "uopen"
       let acc := if ok && snd != pre.cfg.owner && snd != pre.cfg.insuranceFund
@@ -314,7 +321,7 @@ def handleVOp (acc : Acc) (h : VHist) (kv : KV) (line : String) : Acc × VHist :
       let m := Vamm.setOpen pre env snd o
       match m with
       | .ok mv => if ok && sameV mv post then acc else reportMany acc "DISAGREE" ["C09", "C14"] s!"setopen:{diffV mv post}" line
-      | .error _ => if ok then reportMany acc "DISAGREE" ["C09", "C14"] "setopen-accept" line else acc
+      | .error e => let acc := acc.cover s!"vamm.{op}:{errTagOf e}"; if ok then reportMany acc "DISAGREE" ["C09", "C14"] "setopen-accept" line else acc
     | "updcfg" =>
       let u : ConfigUpdate :=
         { holdingCap := optNat (kv.str "ucap"), oiCap := optNat (kv.str "uoic"), toll := optNat (kv.str "utoll"),
@@ -327,14 +334,14 @@ def handleVOp (acc : Acc) (h : VHist) (kv : KV) (line : String) : Acc × VHist :
       let m := Vamm.updateConfig pre snd u
       match m with
       | .ok mv => if ok && mv.cfg == post.cfg then acc else reportMany acc "DISAGREE" ["C20", "C09"] "updcfg" line
-      | .error _ => if ok then reportMany acc "DISAGREE" ["C20", "C09"] "updcfg-accept" line else acc
+      | .error e => let acc := acc.cover s!"vamm.{op}:{errTagOf e}"; if ok then reportMany acc "DISAGREE" ["C20", "C09"] "updcfg-accept" line else acc
     | "updowner" =>
       let acc := if ok && snd != pre.cfg.owner then acc.report "SPECFAIL" "C09" "vamm-owner-change-by-non-owner" line else acc
       let acc := if ok && post.cfg.owner != kv.nat "new" then acc.report "SPECFAIL" "C09" "vamm-owner-not-transferred" line else acc
       let m := Vamm.updateOwner pre snd (kv.nat "new")
       match m with
       | .ok mv => if ok && mv.cfg.owner == post.cfg.owner then acc else acc.report "DISAGREE" "C09" "updowner" line
-      | .error _ => if ok then acc.report "DISAGREE" "C09" "updowner-accept" line else acc
+      | .error e => let acc := acc.cover s!"vamm.{op}:{errTagOf e}"; if ok then acc.report "DISAGREE" "C09" "updowner-accept" line else acc
     | _ => acc
   (acc, next)
 
